@@ -530,7 +530,7 @@ def show(e, depth: int = 0) -> str:
     if k == "unk":
         return f"?<{e[1]}>"
     if k == "fstr":
-        return "f'" + "".join(show(x, d) if isinstance(x, tuple) else str(x) for x in e[1]) + "'"
+        return "f'" + (e[2] if len(e) > 2 else "") + "' % (" + ", ".join(show(x, d) if isinstance(x, tuple) else str(x) for x in e[1]) + ")"
     if k == "dct":
         return "{" + ", ".join(f"{show(a, d)}: {show(b, d)}" for a, b in e[1]) + "}"
     return repr(e)
